@@ -249,6 +249,7 @@ class Summaries:
         self._computing = set()
         self.alloc = None
         self._nullans = {}
+        self._writes = {}
         _ACTIVE[0] = self
 
     def null_answer(self, fname, i):
@@ -316,6 +317,38 @@ class Summaries:
             self._compute_alloc()
         return fname in self.alloc
 
+    def writes_param(self, fname, j):
+        """does fname (or a libast function it hands the parameter on to) store through its pointer parameter j?"""
+        key = (fname, j)
+        if key in self._writes:
+            return self._writes[key]
+        self._writes[key] = False
+        fn = self.prog.fn(fname)
+        if fn is None or j >= len(fn.params) or not fn.params[j].get("tp"):
+            return False
+        d = fn.params[j]["d"]
+        res = False
+        for n in walk(fn.body):
+            if n.get("k") == "assign" or (n.get("k") == "un" and n.get("op") in ("++", "--")):
+                l = X.strip(n["ch"][0])
+                if l is not None and l.get("k") in ("member", "index") or (l is not None and l.get("k") == "un" and l.get("op") == "*"):
+                    p_ = X.apath(l)
+                    if p_ is not None and X.root_decl(p_) == d and p_ != "d%d" % d:
+                        res = True
+                        break
+            if n.get("k") == "call":
+                cn = X.callee_name(n)
+                if cn and self.prog.fn(cn) is not None and cn != fname:
+                    for jj, a in enumerate(n["ch"][1:]):
+                        sa = X.strip(a)
+                        if sa is not None and sa.get("k") == "ref" and sa.get("d") == d and self.writes_param(cn, jj):
+                            res = True
+                            break
+                if res:
+                    break
+        self._writes[key] = res
+        return res
+
     def _compute_alloc(self):
         calls = {}
         direct = set()
@@ -327,6 +360,9 @@ class Summaries:
                     cs.add(cn)
             calls[f.name] = cs
             if cs & ALLOCATORS:
+                direct.add(f.name)
+            # a dispatch through a class's constructor / copy slot allocates (SPIF_OBJ_DUP(x), SPIF_OBJ_NEW())
+            if any(not X.callee_name(c) and X.dispatch_slot(c) in ("dup", "noo") for c in X.calls_in(f.body)):
                 direct.add(f.name)
         alloc = set(direct) | set(ALLOCATORS)
         changed = True
@@ -410,6 +446,14 @@ def scenario(fn, i, summ, assume_others_nonnull=True):
             if ("null", me) in state and cn:
                 if cn in ALLOCATORS or (cn not in MESSAGE_FUNCS and cn not in PURE_LIBC and summ.may_allocate(cn)):
                     res.effects.append((n, "calls %s, which may allocate" % cn))
+                elif summ.prog.fn(cn) is not None:
+                    # a callee that stores through one of the caller's OTHER pointer parameters has an effect the caller sees
+                    for j, a in enumerate(args):
+                        sa = X.strip(a)
+                        if sa is not None and sa.get("k") == "ref" and sa.get("rk") == "param" and sa.get("d") != fn.params[i]["d"] and \
+                                rhs_nullness(state, a) != "null" and summ.writes_param(cn, j):
+                            res.effects.append((n, "calls %s, which stores through %s" % (cn, X.render(a)[:20])))
+                            break
         if k == "assign" and ("null", me) in state:
             p = X.apath(n["ch"][0])
             root = X.root_decl(p) if p else None
